@@ -22,12 +22,12 @@ NewClient(lg, v111, http) ==
      tok |-> "nil", tokq |-> <<>>, dispW |-> <<>>, unsent |-> {},
      recheck |-> <<>>, owed |-> <<>>, stale |-> {}, intok |-> 0, trigc |-> <<>>,
      gotByGet |-> <<>>, taintG |-> FALSE, taintU |-> FALSE, taintW |-> FALSE, dropped |-> <<>>, hUnsub |-> {},
-     lastTokT |-> 0, lastAcc |-> <<>>, tid |-> ""]
+     lastTokT |-> 0, lastAcc |-> <<>>, tid |-> "", dispCalled |-> {}]
 
 InitO(tr) ==
     [tr |-> tr, conns |-> <<>>, ann |-> <<>>, norm |-> <<>>, keyn |-> <<>>,
      mqsubs |-> {}, mqpend |-> <<>>, handed |-> <<>>, window |-> {},
-     refetch |-> <<>>, ctrig |-> <<>>, resets |-> <<>>, stopping |-> FALSE, final |-> FALSE]
+     refetch |-> <<>>, ctrig |-> <<>>, resets |-> <<>>, thr |-> <<>>, stopping |-> FALSE, final |-> FALSE]
 
 V(p, why, kf) == [p |-> p, tr |-> o.tr, l |-> l, why |-> why, kf |-> kf]
 
@@ -327,13 +327,16 @@ H_note(r) ==
             Res(SetConn(o, r.c, [o.conns[r.c] EXCEPT !.unsent = @ \cup {r.rid}, !.stale = @ \cup {r.rid}, !.taintU = TRUE]), {})
       [] r.kind = "dispose" /\ r.c \in DOMAIN o.conns ->
             LET cl == o.conns[r.c]
-                w == r.ready + r.access > 0 \/ r.called
+                \* the subscription is disposed while continuations are parked on it, or while a request
+                \* of the client on that resource is outstanding (its continuation may be running right now)
+                w == r.ready + r.access > 0 \/ r.called \/ \E i \in DOMAIN cl.pend : cl.pend[i].rid = r.rid
                 k == KeyOf(cl, r.rid)
             IN Res(SetConn(o, r.c, [cl EXCEPT !.dispW = IF w THEN Put(@, r.rid, l) ELSE @,
                                               !.unsent = @ \ {r.rid},
                                               !.grant = IF k \in DOMAIN @ THEN Put(@, k, [i \in DOMAIN @[k] |-> IF @[k][i].dis = 0 THEN [@[k][i] EXCEPT !.dis = l] ELSE @[k][i]]) ELSE @,
                                               !.recheck = Del(@, r.rid),
-                                              !.trigc = Del(@, r.rid)]), {})
+                                              !.trigc = Del(@, r.rid),
+                                              !.dispCalled = IF r.called THEN @ \cup {k} ELSE @]), {})
       [] r.kind \in {"reaccess", "reaccessDeferred"} /\ r.c \in DOMAIN o.conns ->
             LET cl == o.conns[r.c]
                 k == KeyOf(cl, r.rid)
@@ -357,6 +360,20 @@ H_note(r) ==
                                                        !.lastTokT = IF r.had THEN T ELSE @]), {})
       [] r.kind = "tokenDone" /\ r.c \in DOMAIN o.conns ->
             Res(SetConn(o, r.c, [o.conns[r.c] EXCEPT !.intok = 0]), {})
+      [] r.kind \in {"thrAdd", "thrDone"} ->
+            \* C19: the throttle's bookkeeping follows Throttle.tla and never exceeds its limit
+            LET prev == Get(o.thr, r.thr, [limit |-> r.limit, running |-> 0, qlen |-> 0])
+                exp == IF r.kind = "thrAdd"
+                       THEN IF prev.running >= prev.limit THEN [running |-> prev.running, qlen |-> prev.qlen + 1, go |-> FALSE]
+                            ELSE [running |-> prev.running + 1, qlen |-> prev.qlen, go |-> TRUE]
+                       ELSE IF prev.qlen = 0 THEN [running |-> prev.running - 1, qlen |-> 0, go |-> FALSE]
+                            ELSE [running |-> prev.running, qlen |-> prev.qlen - 1, go |-> TRUE]
+                went == IF r.kind = "thrAdd" THEN r.started ELSE r.next
+                vs == (IF r.running > r.limit THEN {V("C19", "throttle " \o r.thr \o ": " \o ToString(r.running) \o " governed requests outstanding, limit " \o ToString(r.limit), "")} ELSE {})
+                      \cup (IF r.qlen > 0 /\ r.running < r.limit THEN {V("C19", "throttle " \o r.thr \o ": requests wait although only " \o ToString(r.running) \o " of " \o ToString(r.limit) \o " are outstanding", "")} ELSE {})
+                      \cup (IF r.running # exp.running \/ r.qlen # exp.qlen \/ went # exp.go
+                            THEN {V("C19", "throttle " \o r.thr \o ": " \o r.kind \o " left " \o ToString(<<r.running, r.qlen, went>>) \o ", Throttle.tla says " \o ToString(<<exp.running, exp.qlen, exp.go>>), "")} ELSE {})
+            IN Res([o EXCEPT !.thr = Put(o.thr, r.thr, [limit |-> r.limit, running |-> r.running, qlen |-> r.qlen])], vs)
       [] r.kind = "resetres" ->
             Res([o EXCEPT !.refetch = Put(o.refetch, r.key, Get(o.refetch, r.key, 0) + 1)], {})
       [] OTHER -> Res(o, {})
@@ -384,8 +401,10 @@ H_mreq(r) ==
     LET badV == IF r.bad THEN {V("C14", "request on malformed subject " \o r.subj, "")} ELSE {}
         known == r.c \in DOMAIN o.conns
         cidV == IF ConnBound(r.t) /\ ~known THEN {V("C10", r.t \o " request " \o r.subj \o " carries a connection id of no connection", "")} ELSE {}
+        \* finding KF-X: a re-check parked in a reset throttle when its subscription was disposed
         goneV == IF ConnBound(r.t) /\ known /\ o.conns[r.c].gone
-                 THEN {V("C11", r.t \o " request " \o r.subj \o " on behalf of closed connection " \o r.c, "")} ELSE {}
+                 THEN {V("C11", r.t \o " request " \o r.subj \o " on behalf of closed connection " \o r.c,
+                         IF r.t = "access" /\ r.key \in o.conns[r.c].dispCalled THEN "KF-X" ELSE "")} ELSE {}
         tokV == IF ConnBound(r.t) /\ known /\ ~o.conns[r.c].http /\ r.tok # o.conns[r.c].tok
                 THEN {V("C05", r.t \o " request " \o r.subj \o " carries token " \o r.tok \o " but the connection's token is " \o o.conns[r.c].tok, "")} ELSE {}
         \* a token reset reaches only connections whose current token id is listed
@@ -415,7 +434,8 @@ H_mreq(r) ==
                        rc2 == [rid \in DOMAIN cl.recheck |->
                                   IF KeyOf(cl, rid) = r.key /\ cl.recheck[rid].k = 0 THEN [cl.recheck[rid] EXCEPT !.k = r.k] ELSE cl.recheck[rid]]
                        rechk == \E rid \in DOMAIN cl.recheck : KeyOf(cl, rid) = r.key /\ cl.recheck[rid].k = 0
-                   IN SetConn(o1, r.c, [cl EXCEPT !.recheck = rc2, !.lastAcc = Put(@, r.key, [l |-> l, rechk |-> rechk])])
+                   IN SetConn(o1, r.c, [cl EXCEPT !.recheck = rc2, !.lastAcc = Put(@, r.key, [l |-> l, rechk |-> rechk]),
+                                                  !.dispCalled = IF cl.gone THEN @ \ {r.key} ELSE @])
               ELSE o1
     IN Res(o2, badV \cup cidV \cup goneV \cup tokV \cup subV \cup callV \cup tidV)
 
@@ -561,6 +581,10 @@ C06TokViol(c, q) ==
                 IF KeyOf(cl, rid) \in DOMAIN cl.lastAcc /\ ~cl.lastAcc[KeyOf(cl, rid)].rechk THEN "KF-R" ELSE "")
               : rid \in {x \in DOMAIN snap : snap[x].direct > 0 /\ Get(cl.lastAcc, KeyOf(cl, x), [l |-> 0]).l < cl.lastTokT} }
 
+C19QViol ==
+    { V("C19", "throttle " \o t \o " still has " \o ToString(o.thr[t].qlen) \o " governed requests waiting and " \o ToString(o.thr[t].running) \o " slots taken at quiescence", "")
+      : t \in {x \in DOMAIN o.thr : o.thr[x].qlen > 0 \/ o.thr[x].running > 0} }
+
 C09QViol(q) ==
     UNION { IF q.cache[n].count = q.cache[n].subs THEN {}
             ELSE {V("C09", "cache entry " \o n \o " has use count " \o ToString(q.cache[n].count) \o " with " \o ToString(q.cache[n].subs) \o " subscribers and nothing in flight", "")}
@@ -579,7 +603,7 @@ H_quiescent(r) ==
         o1 == [o EXCEPT !.conns = [c \in DOMAIN o.conns |-> [o.conns[c] EXCEPT !.rn = r.rn @@ @]]]
     IN Res(o1,
            UNION {C01Viol(c, r) \cup C07Viol(c) \cup C08Viol(c, r) \cup C03EndViol(c) \cup C06EndViol(c, r) \cup C06TokViol(c, r) : c \in live}
-           \cup C09QViol(r) \cup C11Viol(r))
+           \cup C09QViol(r) \cup C11Viol(r) \cup C19QViol)
 
 H_final(r) ==
     Res([o EXCEPT !.final = TRUE],
